@@ -125,10 +125,15 @@ class ServeManifest(RequestHandlerBase):
                 if pos != options.updateCount:
                     continue
             else:
-                tm = options.availabilityStartTime.replace(
+                if options.mode != 'live':
+                    continue
+                # options.availabilityStartTime may be a name such as "year" and
+                # options.minimumUpdatePeriod may be None: use the resolved values
+                mpd = context['mpd']
+                tm = mpd.availabilityStartTime.replace(
                     hour=pos.hour, minute=pos.minute, second=pos.second)
-                tm2 = tm + datetime.timedelta(seconds=options.minimumUpdatePeriod)
-                if context['mpd'].now < tm or context['mpd'].now > tm2:
+                tm2 = tm + datetime.timedelta(seconds=(mpd.minimumUpdatePeriod or 0))
+                if mpd.now < tm or mpd.now > tm2:
                     continue
             if (
                     code >= 500 and
